@@ -1,6 +1,7 @@
 package props
 
 import (
+	"fmt"
 	"go/token"
 	"go/types"
 	"strings"
@@ -13,7 +14,7 @@ import (
 func init() {
 	register(&Spec{ID: "C12", Title: "Logical channels are isolated and correctly routed under concurrency", Run: runC12,
 		Meta: core.Meta{
-			Explanation: "Lockset and routing rules; schedules are not explored. R12.1 (E-LOCK, guarded-by table confirmed by reading): Conn.tdsChannels is read only under tdsChannelsLock (R or W) and written only under W (objects under construction exempt); Conn.tdsChannelCurFreeId is touched only through sync/atomic or under W; Channel.closed is read under the channel's RWMutex and written under W; the hook slices are accessed under one mutex. The must-lockset is computed per function over SSA (Lock/RLock add, Unlock/RUnlock remove, deferred unlocks keep the lock to the exit, unexported callees inherit the meet over their call sites). R12.2: in Conn.ReadFrom the receiver of WritePacket is the comma-ok result of tdsChannels[int(packet.Header.Channel)] for the packet just read, and the !ok edge reports on Conn.errCh and continues. R12.3: sendPacket stamps Header.Channel from channelId and Header.PacketNr from curPacketNr on the channelId > 0 edge and advances curPacketNr by one modulo 2^bits(PacketNr). R12.4: NewChannel registers the channel under the id it stores in channelId; Close deletes that id under the write lock. R12.5: the set-up acknowledgement test in NewChannel uses a type assertion that some producer can satisfy and is followed by the PROTACK test. R12.7: the id returned by getValidChannelId is computed from the result of the atomic add on tdsChannelCurFreeId (or is the id of the recursive attempt) and the counter is never read by a separate atomic load. R12.8 = R01.7: Packet.WriteTo hands the serialised packet to the transport in exactly one Write (channels share the transport without a send lock; two writes let another channel's packet land between header and body). R12.6: WritePacket tests `closed` under the channel lock before it touches the queues. R12.4 also requires that the registration in tdsChannels dominates the sending of the set-up packet (the acknowledgement can be routed as soon as the packet is out).",
+			Explanation: "Lockset and routing rules; schedules are not explored. R12.1 (E-LOCK, guarded-by table confirmed by reading): Conn.tdsChannels is read only under tdsChannelsLock (R or W) and written only under W (objects under construction exempt); Conn.tdsChannelCurFreeId is touched only through sync/atomic or under W; Channel.closed is read under the channel's RWMutex and written under W; the hook slices are accessed under one mutex. The must-lockset is computed per function over SSA (Lock/RLock add, Unlock/RUnlock remove, deferred unlocks keep the lock to the exit, unexported callees inherit the meet over their call sites). R12.2: in Conn.ReadFrom the receiver of WritePacket is the comma-ok result of tdsChannels[int(packet.Header.Channel)] for the packet just read, and the !ok edge reports on Conn.errCh and continues. R12.3: sendPacket stamps Header.Channel from channelId and Header.PacketNr from curPacketNr on the channelId > 0 edge and advances curPacketNr by one modulo 2^bits(PacketNr). R12.4: NewChannel registers the channel under the id it stores in channelId; Close deletes that id under the write lock. R12.5: the set-up acknowledgement test in NewChannel uses a type assertion that some producer can satisfy and is followed by the PROTACK test. R12.7: the id returned by getValidChannelId is computed from the result of the atomic add on tdsChannelCurFreeId (or is the id of the recursive attempt) and the counter is never read by a separate atomic load. R12.8 = R01.7: Packet.WriteTo hands the serialised packet to the transport in exactly one Write (channels share the transport without a send lock; two writes let another channel's packet land between header and body). R12.9: no `go` statement occurs in any function statically reachable from (*Conn).ReadFrom — a hand-over finished by a helper goroutine lets packages of one channel overtake each other. R12.6: WritePacket tests `closed` under the channel lock before it touches the queues. R12.4 also requires that the registration in tdsChannels dominates the sending of the set-up packet (the acknowledgement can be routed as soon as the packet is out).",
 			NotDecided:  "Interleavings and data races on fields used by one goroutine per channel by contract (curPacketNr, CurrentHeaderType, packetSize) are not decided; the race detector is another technique family.",
 			Assumptions: []string{"sync.RWMutex / sync/atomic semantics", "fields outside the guarded-by table are confined to one goroutine by the library's contract"},
 		}})
@@ -37,6 +38,8 @@ func runC12(r *core.Run) {
 	r.Rule("R12.6", "packets for a closed channel are dropped under the lock", 1, false)
 	r.Rule("R12.7", "an id is reserved in one atomic step", 1, false)
 	r.Rule("R12.8", "a packet reaches the shared transport in one Write call (R01.7)", 1, false)
+	r.Rule("R12.9", "packages are handed over by the reader goroutine itself, one after the other (no goroutine is started on the reader path)", 1, false)
+	defer c12NoGoOnReaderPath(r)
 
 	table := []guardedField{
 		{p.Field("tds", "Conn", "tdsChannels"), "tdsChannelsLock", false, true},
@@ -46,7 +49,7 @@ func runC12(r *core.Run) {
 		{p.Field("tds", "Channel", "envChangeHooks"), "envChangeHooksLock", false, false},
 	}
 	c12Guarded(r, la, table)
-	c12Routing(r)
+	c12Routing(r, "R12.2")
 	c12Stamping(r)
 	c12Registration(r, la)
 	c12Setup(r)
@@ -220,7 +223,7 @@ func c12Guarded(r *core.Run, la *lockAnalysis, table []guardedField) {
 	_ = p
 }
 
-func c12Routing(r *core.Run) {
+func c12Routing(r *core.Run, rule string) {
 	p := r.Prog
 	fn := p.Func("tds", "Conn", "ReadFrom")
 	wp := p.Func("tds", "Channel", "WritePacket")
@@ -229,7 +232,7 @@ func c12Routing(r *core.Run) {
 	fErrCh := p.Field("tds", "Conn", "errCh")
 	calls := callsTo(fn, wp)
 	if len(calls) != 1 {
-		r.Unknown("R12.2", "Conn.ReadFrom: WritePacket call", fn.Pos(), "expected one WritePacket call")
+		r.Unknown(rule, "Conn.ReadFrom: WritePacket call", fn.Pos(), "expected one WritePacket call")
 		return
 	}
 	c := calls[0]
@@ -266,7 +269,7 @@ func c12Routing(r *core.Run) {
 			ok, why = false, "WritePacket is not dominated by the lookup's ok result"
 		}
 	}
-	r.Check(ok, "R12.2", "Conn.ReadFrom: packet delivered to the channel named in its header", c.Pos(), "receiver = tdsChannels[int(packet.Header.Channel)], ok == true", why)
+	r.Check(ok, rule, "Conn.ReadFrom: packet delivered to the channel named in its header", c.Pos(), "receiver = tdsChannels[int(packet.Header.Channel)], ok == true", why)
 	if lookup == nil {
 		return
 	}
@@ -297,7 +300,7 @@ func c12Routing(r *core.Run) {
 			}
 		}
 	}
-	r.Check(okMiss, "R12.2", "Conn.ReadFrom: unknown channel reported and ignored", fn.Pos(), "send on Conn.errCh, then continue", whyMiss)
+	r.Check(okMiss, rule, "Conn.ReadFrom: unknown channel reported and ignored", fn.Pos(), "send on Conn.errCh, then continue", whyMiss)
 }
 
 func c12Stamping(r *core.Run) {
@@ -428,34 +431,78 @@ func c12Registration(r *core.Run, la *lockAnalysis) {
 	fChannels := p.Field("tds", "Conn", "tdsChannels")
 	fChannelId := p.Field("tds", "Channel", "channelId")
 	// NewChannel: MapUpdate(tdsChannels, key, val) with val.channelId := key
-	ok, why := false, "no registration in tdsChannels found"
-	for _, b := range nc.Blocks {
-		for _, in := range b.Instrs {
-			mu, isMU := in.(*ssa.MapUpdate)
-			if !isMU {
-				continue
-			}
-			if f, _ := core.FieldLoad(mu.Map); f != fChannels {
-				continue
-			}
-			// the value's channelId store
-			al, isAl := mu.Value.(*ssa.Alloc)
-			if !isAl {
-				why = "registered value is not the channel built here"
-				continue
-			}
-			for _, ref := range *al.Referrers() {
-				if fa, isFA := ref.(*ssa.FieldAddr); isFA && core.FieldOfAddr(fa) == fChannelId {
-					for _, r2 := range *fa.Referrers() {
-						if st, isSt := r2.(*ssa.Store); isSt && st.Val == mu.Key {
-							ok = true
-						}
+	// registration events in NewChannel: a map update of tdsChannels, or a call of a helper that performs one with
+	// its parameters on every path (one level of helpers is looked through)
+	type regEvent struct {
+		at       ssa.Instruction
+		key, val ssa.Value
+	}
+	var events []regEvent
+	updatesIn := func(fn *ssa.Function) []*ssa.MapUpdate {
+		var out []*ssa.MapUpdate
+		for _, b := range fn.Blocks {
+			for _, in := range b.Instrs {
+				if mu, isMU := in.(*ssa.MapUpdate); isMU {
+					if f, _ := core.FieldLoad(mu.Map); f == fChannels {
+						out = append(out, mu)
 					}
 				}
 			}
-			if !ok {
-				why = "the channel is registered under a key that differs from the id stored in channelId: packets are routed to the wrong channel"
+		}
+		return out
+	}
+	for _, mu := range updatesIn(nc) {
+		events = append(events, regEvent{mu, mu.Key, mu.Value})
+	}
+	for _, c := range core.Calls(nc) {
+		h := core.StaticCallee(c)
+		if h == nil || h == nc || !core.InModule(h) || len(h.Blocks) == 0 {
+			continue
+		}
+		if _, isCall := c.(*ssa.Call); !isCall {
+			continue
+		}
+		for _, mu := range updatesIn(h) {
+			onAll := true
+			for _, ret := range core.Returns(h) {
+				if !core.Dominates(mu, ret) {
+					onAll = false
+				}
 			}
+			ki, vi := -1, -1
+			for i, pa := range h.Params {
+				if mu.Key == ssa.Value(pa) {
+					ki = i
+				}
+				if mu.Value == ssa.Value(pa) {
+					vi = i
+				}
+			}
+			if onAll && ki >= 0 && vi >= 0 {
+				args := c.Common().Args
+				events = append(events, regEvent{c.(ssa.Instruction), args[ki], args[vi]})
+			}
+		}
+	}
+	ok, why := false, "no registration in tdsChannels found"
+	for _, ev := range events {
+		// the value's channelId store
+		al, isAl := ev.val.(*ssa.Alloc)
+		if !isAl {
+			why = "registered value is not the channel built here"
+			continue
+		}
+		for _, ref := range *al.Referrers() {
+			if fa, isFA := ref.(*ssa.FieldAddr); isFA && core.FieldOfAddr(fa) == fChannelId {
+				for _, r2 := range *fa.Referrers() {
+					if st, isSt := r2.(*ssa.Store); isSt && st.Val == ev.key {
+						ok = true
+					}
+				}
+			}
+		}
+		if !ok {
+			why = "the channel is registered under a key that differs from the id stored in channelId: packets are routed to the wrong channel"
 		}
 	}
 	r.Check(ok, "R12.4", "NewChannel registers under its own id", nc.Pos(), "tdsChannels[id] = &Channel{channelId: id}", why)
@@ -464,13 +511,9 @@ func c12Registration(r *core.Run, la *lockAnalysis) {
 	okOrder, whyOrder := true, ""
 	for _, c := range callsTo(nc, sp) {
 		regBefore := false
-		for _, b := range nc.Blocks {
-			for _, in := range b.Instrs {
-				if mu, isMU := in.(*ssa.MapUpdate); isMU {
-					if f, _ := core.FieldLoad(mu.Map); f == fChannels && core.Dominates(mu, c.(ssa.Instruction)) {
-						regBefore = true
-					}
-				}
+		for _, ev := range events {
+			if core.Dominates(ev.at, c.(ssa.Instruction)) {
+				regBefore = true
 			}
 		}
 		if !regBefore {
@@ -632,4 +675,22 @@ func sensitiveHelpers(p *core.Prog, la *lockAnalysis, sensitive map[*types.Var]b
 		}
 	}
 	return out
+}
+
+// c12NoGoOnReaderPath: R12.9.
+func c12NoGoOnReaderPath(r *core.Run) {
+	p := r.Prog
+	reader := readerPathFuncs(p)
+	n := 0
+	for fn := range reader {
+		n++
+		for _, b := range fn.Blocks {
+			for _, in := range b.Instrs {
+				if g, ok := in.(*ssa.Go); ok {
+					r.Bad("R12.9", core.FuncName(fn)+": goroutine started on the reader path", g.Pos(), "the reader goroutine's path starts another goroutine ("+core.Expr(g.Call.Value)+"): what it delivers or routes is no longer ordered with respect to the packages the reader hands over itself, so packages of one channel can reach the consumer out of the order the server sent them")
+				}
+			}
+		}
+	}
+	r.Check(n >= 3, "R12.9", "reader path is a single goroutine", token.NoPos, fmt.Sprintf("%d functions reachable from (*Conn).ReadFrom, no go statement", n), "the reader path was not found")
 }
